@@ -221,6 +221,42 @@ Definition specb (good : bool) (init : Z -> option str) (ops : list wop) (univ :
   (if good then (k =? length ops)%nat else (k <=? length ops)%nat)
   && forallb (fun p => ostr_eqb (files p) (expected init (firstn k ops) p)) univ.
 
+(* ---- bamSplitByTag.py: split_bam_by_tag (head=None) and the loop of its __main__ block.
+   A read is (sanitised tag value or None, record id); a file is the list of record ids written. *)
+Definition bread := (option Z * Z)%type.
+Definition bpass := (list Z * list Z * (Z -> option (list Z)))%type.   (* output_handles keys, waiting, files *)
+
+Definition b_step (maxh : Z) (skip : list Z) (st : bpass) (r : bread) : bpass :=
+  let '(hs, wt, f) := st in
+  match fst r with
+  | None => st                                            (* if not r.has_tag(tag): continue *)
+  | Some v =>
+      if memZ v skip || memZ v wt then st                 (* value in skip or value in waiting *)
+      else if memZ v hs then (hs, wt, fs_append v [snd r] f)
+      else if maxh <=? Z.of_nat (length hs) then (hs, v :: wt, f)    (* len(output_handles) >= max_handles *)
+      else (hs ++ [v], wt, fs_append v [snd r] (fs_open false v f))  (* AlignmentFile(..., "wb") *)
+  end.
+
+Definition b_pass (maxh : Z) (skip : list Z) (reads : list bread) (f : Z -> option (list Z)) : bpass :=
+  fold_left (b_step maxh skip) reads ([], [], f).
+
+(* while len(waiting) > 0: done, waiting = split_bam_by_tag(..., skip=skip); skip.update(done) *)
+Fixpoint b_loop (fuel : nat) (maxh : Z) (reads : list bread) (skip : list Z)
+         (f : Z -> option (list Z)) (passes : nat) : option (list Z * (Z -> option (list Z)) * nat) :=
+  match fuel with
+  | O => None
+  | S fuel' =>
+      let '(hs, wt, f') := b_pass maxh skip reads f in
+      match wt with
+      | [] => Some (skip ++ hs, f', S passes)
+      | _ :: _ => b_loop fuel' maxh reads (skip ++ hs) f' (S passes)
+      end
+  end.
+
+Definition has_value (v : Z) (r : bread) : bool :=
+  match fst r with Some w => w =? v | None => false end.
+Definition recs_of (v : Z) (reads : list bread) : list Z := map snd (filter (has_value v) reads).
+
 (* ---- I/O glue *)
 Definition dec_op (v : Val) : wop :=
   {| w_path := getZ (nthV 0 v); w_str := getZs (nthV 1 v); w_fa := getB (nthV 2 v) |}.
@@ -265,5 +301,12 @@ Definition run_C19 (mode : Z) (v : Val) : Val :=
                                | None => None
                                end in
          ofB (specb (script_goodb s ops && fa_consistentb ops) init ops univ k files)
+  | 3 => (* bamSplitByTag: [max_handles; reads [[value] | [], id]; universe of values] *)
+         let maxh := getZ (nthV 0 v) in
+         let reads := map (fun e => (getOptZ (nthV 0 e), getZ (nthV 1 e))) (getL (nthV 1 v)) in
+         match b_loop (S (length reads)) maxh reads [] (fun _ => None) 0%nat with
+         | Some (done, f, n) => VL [VZ 1; ofZs done; VZ (Z.of_nat n); VL (map (enc_file f) (getZs (nthV 2 v)))]
+         | None => VL [VZ 0]
+         end
   | _ => bad
   end.
